@@ -10,6 +10,13 @@
  *   input <oid> <text>          what the backend does with a pending input_to: call_function_interactive()
  *                               inside a driver-level error context
  *   injectsafe <oid> <fn> <n>   like inject, but the evaluation is the driver's safe_apply(fn, ob, n) with n pushed numbers
+ *   injectbe cmd|hb|reset|cleanup
+ *                               like inject, but the evaluation is ONE CYCLE OF THE REAL backend() (src/backend.c): a command
+ *                               line of user u1 taken by process_user_command() (-> u1::process_input -> t::run), the
+ *                               heart_beat() of object t run by call_heart_beat(), or reset() / clean_up() of t run by
+ *                               look_for_objects_to_swap().  do_comm_polling() is wrapped at link level: each call is the poll
+ *                               point of a cycle, where the scripted event happens and the registers are snapshotted; the
+ *                               recovery is the backend's own setjmp/restore_context (cmd, hb) or the sweep's (reset, cleanup).
  *   inject <oid> <fn> [<reg> <oid>]
  *        N = number of instructions of the fault-free evaluation  <oid>-><fn>()  (preceded by <oid>->prep()).
  *        Then for every k in 1..N: prep, snapshot, evaluation with the fault raised at instruction k inside a
@@ -30,6 +37,9 @@
 #include "src/interpret.h"
 #include "lib/efuns/call_out.h"
 #include "lpc/functional.h"
+#include "src/main.h"
+#include "src/backend.h"
+#include "rc.h"
 
 extern long verif_fault_countdown;
 extern unsigned long verif_instruction_count;
@@ -41,9 +51,25 @@ extern int call_function_interactive (interactive_t * i, char *str);
 extern void remove_destructed_objects (void);
 extern int verif_load_object_depth (void);
 extern object_t *verif_restrict_destruct (void);
+extern int verif_command_giver_stack_depth (void);
 extern void reset_load_object_limits (void);
 extern void reset_destruct_object_limits (void);
 
+extern int (*verif_backend_cycle_hook) (void);
+
+/* virtual clock: call_heart_beat() does `time (&current_time)`.  The clock only moves when a backend case asks for it
+   (reset / clean_up sweeps are due every 15 minutes of driver time). */
+static long clock_advance = 0;
+time_t time (time_t * t)
+{
+  time_t v = current_time + clock_advance;
+  clock_advance = 0;
+  if (t)
+    *t = v;
+  return v;
+}
+
+static const char *be_kind = 0;	/* non-null: the evaluation is one cycle of the real backend() */
 static long c05_maxk = 0;	/* 0 = all k */
 static funptr_t *safe_fp = 0;	/* non-null: the evaluation is safe_call_function_pointer() */
 static int safe_nargs = -1;	/* >= 0: the evaluation is safe_apply() from driver level with that many arguments */
@@ -63,11 +89,12 @@ static const char *oname (object_t * ob)
 
 static void snapshot (char *buf, size_t n)
 {
-  snprintf (buf, n, "sp=%ld csp=%ld cg=%s co=%s po=%s prog=%s ct=%d fp=%ld pc=%s fio=%d vio=%d ctx=%d ld=%d rd=%s",
+  snprintf (buf, n, "sp=%ld csp=%ld cg=%s co=%s po=%s prog=%s ct=%d fp=%ld pc=%s fio=%d vio=%d ctx=%d ld=%d rd=%s cgs=%d qv=%s",
             (long) (sp - start_of_stack), (long) (csp - control_stack), oname (command_giver), oname (current_object),
             oname (previous_ob), current_prog ? current_prog->name : "0", caller_type,
             fp ? (long) (fp - start_of_stack) : -1L, pc ? "set" : "null", function_index_offset, variable_index_offset,
-            verif_error_context_depth (), verif_load_object_depth (), oname (verif_restrict_destruct ()));
+            verif_error_context_depth (), verif_load_object_depth (), oname (verif_restrict_destruct ()),
+            verif_command_giver_stack_depth (), last_verb ? "set" : "0");
 }
 
 /* ---- capture of the VL lines written to stderr (a regular file in the case child) ---------------- */
@@ -126,7 +153,8 @@ static void fault_hook (void)
       static const char k[] = "FPCK";
       shape_now[len++] = k[c->framekind & FRAME_MASK];
     }
-  snprintf (shape_now + len, sizeof shape_now - len, "|%d", verif_error_context_depth () - base_ctx);
+  /* (a backend case runs below a harness-level context, which is not part of the evaluation) */
+  snprintf (shape_now + len, sizeof shape_now - len, "|%d", verif_error_context_depth () - base_ctx - (be_kind ? 1 : 0));
 }
 
 /* ---- string sets ----------------------------------------------------------------------------- */
@@ -235,12 +263,117 @@ static void reset_side (void)
         }
 }
 
+/* ---- one cycle of the real backend() ------------------------------------------------------------ */
+static int be_polls;		/* poll points seen in this backend() run */
+static int be_completed;	/* the scripted cycle reached its end (the cycle hook ran) */
+static long be_k;
+static volatile unsigned long be_count;
+static char be_loop_snap[512];
+
+/* the snapshot at the poll point of the cycle AFTER the scripted one, i.e. inside the loop, after the backend's own
+   recovery: the chain holds the harness context and the backend's context, which are taken off the printed depth */
+static void be_snapshot (void)
+{
+  char raw[512], *c;
+  snapshot (raw, sizeof raw);
+  c = strstr (raw, " ctx=");
+  if (c)
+    {
+      int d = atoi (c + 5);
+      char tail[256];
+      char *sp2 = strchr (c + 1, ' ');
+      snprintf (tail, sizeof tail, "%s", sp2 ? sp2 : "");
+      snprintf (c, sizeof raw - (c - raw), " ctx=%d%s", d - 2, tail);
+    }
+  snprintf (be_loop_snap, sizeof be_loop_snap, "%s", raw);
+}
+
+int __wrap_do_comm_polling (struct timeval *timeout)
+{
+  object_t *t = vh_obj ("t"), *u = vh_obj ("u1");
+  (void) timeout;
+  be_polls++;
+  if (be_polls == 1 && be_kind)
+    {
+      /* the scripted event of this cycle */
+      if (!strcmp (be_kind, "cmd") && u && u->interactive)
+        {
+          interactive_t *ip = u->interactive;
+          memcpy (ip->text, "go", 3);
+          ip->text_start = 0;
+          ip->text_end = 3;
+          ip->iflags |= CMD_IN_BUF | HAS_CMD_TURN | HAS_PROCESS_INPUT;
+          if (!ip->prompt)
+            ip->prompt = "";
+        }
+      else
+        {
+          /* timer tick, exactly what heartbeat_timer_callback() does */
+          heart_beat_flag = 1;
+          MAIN_OPTION (timer_flags) = !strcmp (be_kind, "hb") ? TIMER_FLAG_HEARTBEAT : TIMER_FLAG_RESET;
+          if (t && !strcmp (be_kind, "reset"))
+            {
+              t->next_reset = current_time - 1;
+              t->flags |= O_WILL_RESET;
+              t->flags &= ~(O_RESET_STATE | O_WILL_CLEAN_UP);
+            }
+          else if (t && !strcmp (be_kind, "cleanup"))
+            {
+              t->time_of_ref = current_time - CONFIG_INT (__TIME_TO_CLEAN_UP__) - 10;
+              t->flags |= O_WILL_CLEAN_UP | O_RESET_STATE;
+              /* (a failing clean_up() leaves O_RESET_STATE cleared, and the restarted sweep would call a reset() that is
+                 due by then: only clean_up() is the evaluation under test here) */
+              t->flags &= ~O_WILL_RESET;
+            }
+        }
+      eval_cost = CONFIG_INT (__MAX_EVAL_COST__);
+      verif_instruction_count = 0;
+      verif_fault_countdown = be_k;
+    }
+  else if (be_polls == 2)
+    {
+      verif_fault_countdown = 0;
+      be_count = verif_instruction_count;
+      be_snapshot ();
+    }
+  return 0;
+}
+
+static int be_cycle_hook (void)
+{
+  if (be_polls == 1)
+    be_completed = 1;
+  return be_polls >= 2;
+}
+
+static void run_backend_cycle (long k)
+{
+  object_t *t = vh_obj ("t");
+  be_polls = 0;
+  be_completed = 0;
+  be_k = k;
+  be_count = 0;
+  be_loop_snap[0] = 0;
+  external_port[0].port = 0;	/* no listening socket */
+  MAIN_OPTION (console_mode) = 0;
+  MAIN_OPTION (timer_flags) = 0;	/* no timer thread; the start-up call_heart_beat() only reads the clock */
+  heart_beat_flag = 0;
+  if (t)
+    t->flags |= O_RESET_STATE;
+  /* the sweep of look_for_objects_to_swap() is due every 15 minutes of driver time */
+  clock_advance = (!strcmp (be_kind, "reset") || !strcmp (be_kind, "cleanup")) ? 1000 : 0;
+  verif_backend_cycle_hook = be_cycle_hook;
+  backend ();
+  verif_backend_cycle_hook = 0;
+  MAIN_OPTION (timer_flags) = 0;
+}
+
 /* one evaluation of ob->fn() with the fault at instruction k (0 = none); outcome text into out */
 static unsigned long evaluate_k (object_t * ob, const char *fn, long k, const char *reg, object_t * regval, char *out,
                                  size_t n)
 {
   error_context_t econ;
-  char snap[512], probe[4096], res[256], val[128];
+  char snap[512], probe[4096], res[1024], val[128];
   volatile unsigned long count = 0;
   char *shared = make_shared_string (fn);
   svalue_t *ret;
@@ -265,7 +398,15 @@ static unsigned long evaluate_k (object_t * ob, const char *fn, long k, const ch
           eval_cost = CONFIG_INT (__MAX_EVAL_COST__);
           verif_instruction_count = 0;
           verif_fault_countdown = k;
-          if (safe_nargs >= 0 && safe_fp)
+          if (be_kind)
+            {
+              /* one cycle of the real backend(): its own save_context / setjmp / restore_context / pop_context */
+              run_backend_cycle (k);
+              verif_fault_countdown = 0;
+              count = be_count;
+              snprintf (res, sizeof res, "%s ; loop %s", be_completed ? "done be" : "fault-top", be_loop_snap);
+            }
+          else if (safe_nargs >= 0 && safe_fp)
             {
               /* the driver's other safe entry (socket callbacks): safe_call_function_pointer() */
               for (int i = 0; i < safe_nargs; i++)
@@ -469,7 +610,15 @@ static int c05_cmd (char *line)
           return 1;
         }
       if (!base_sp)
-        remember_base ();
+        {
+          /* the first evaluation of the case: print the reference snapshot and probe, as `inject` does */
+          char s0[512];
+          remember_base ();
+          snapshot (s0, sizeof s0);
+          vh_out ("base %s", s0);
+          run_probe (out, sizeof out);
+          vh_out ("probe0 %s", out);
+        }
       evaluate_k (ob, tok[2], 0, 0, 0, out, sizeof out);
       vh_out ("run %s", out);
       return 1;
@@ -510,6 +659,22 @@ static int c05_cmd (char *line)
       safe_nargs = atoi (tok[3]);
       tok[0] = ij;
       n = 3;
+    }
+  be_kind = 0;
+  if (!strcmp (tok[0], "injectbe") && n == 2)
+    {
+      static char *be[3] = { "inject", "t", "<backend>" };
+      static char kind[16];
+      object_t *t = vh_obj ("t");
+      snprintf (kind, sizeof kind, "%s", tok[1]);
+      be_kind = kind;
+      tok[0] = be[0];
+      tok[1] = be[1];
+      tok[2] = be[2];
+      n = 3;
+      /* the side state the probe prints (heart beat of t) is the one prep() sets up */
+      if (t)
+        vh_apply_str (t, "prep", 0, 0, 0, 0);
     }
   if (!strcmp (tok[0], "injectco") && n == 1)
     {
